@@ -46,8 +46,10 @@ type mop struct {
 	lst   func(e *env, ls []fp.List[int]) fp.List[int]
 	// seqRef: the library's own eager counterpart (must agree with ref)
 	seqRef func(ops [][]int) []int
-	// observe: the iterator/list result is only compared with seq as an observation (census), not an alarm
+	// observe: the ITERATOR variant is only compared with seq as an observation (census), not an alarm
 	observe bool
+	// zipLike: the output ends with the shortest operand
+	zipLike bool
 }
 
 func zipRef(ops [][]int) []int {
@@ -95,7 +97,7 @@ func seqs(ops [][]int) []fp.Seq[int] {
 }
 
 var mops = []mop{
-	{name: "iterator.Zip", arity: 2, ref: zipRef, lname: "list.Zip",
+	{name: "iterator.Zip", arity: 2, ref: zipRef, lname: "list.Zip", zipLike: true,
 		iter: func(e *env, its []fp.Iterator[int]) fp.Iterator[int] {
 			return glue(iterator.Zip(its[0], its[1]), func(t fp.Tuple2[int, int]) int { return pack(t.I1, t.I2) })
 		},
@@ -109,7 +111,7 @@ var mops = []mop{
 			}
 			return out
 		}},
-	{name: "iterator.Zip3", arity: 3, ref: zipRef, lname: "list.Zip3",
+	{name: "iterator.Zip3", arity: 3, ref: zipRef, lname: "list.Zip3", zipLike: true,
 		iter: func(e *env, its []fp.Iterator[int]) fp.Iterator[int] {
 			return glue(iterator.Zip3(its[0], its[1], its[2]), func(t fp.Tuple3[int, int, int]) int { return pack(t.I1, t.I2, t.I3) })
 		},
@@ -168,7 +170,39 @@ func iterOperand(e *env, s *opSrc, n int) fp.Iterator[int] {
 	return counted(e, &s.c, own(operandValues(n), false, nil))
 }
 
-func listOperand(e *env, s *opSrc, n int) fp.List[int] {
+// unbounded list operands are never slice-backed: list.Generate, list.Map over list.Generate,
+// list.Recurrence1 (flavour chosen per execution)
+var unboundedFlavours = []string{"list.Generate", "list.Map(list.Generate)", "list.Recurrence1"}
+
+func listOperand(e *env, s *opSrc, n int, flavour int) fp.List[int] {
+	if n == unboundedOperand && flavour == 2 {
+		i := 0
+		for len(s.evals) < 1 {
+			s.evals = append(s.evals, 1) // the first element is given, not computed
+		}
+		return list.Recurrence1(1, func(prev int) int {
+			e.tick()
+			i++
+			for len(s.evals) <= i {
+				s.evals = append(s.evals, 0)
+			}
+			s.evals[i]++
+			if i >= pullLimit {
+				s.c.limitHit = true
+				e.tripped = true
+				panic(tripped{})
+			}
+			return prev%3 + 1
+		})
+	}
+	l := listGenerate(e, s, n)
+	if n == unboundedOperand && flavour == 1 {
+		return list.Map(l, func(v int) int { e.tick(); return v })
+	}
+	return l
+}
+
+func listGenerate(e *env, s *opSrc, n int) fp.List[int] {
 	return list.Generate(func(i int) fp.Option[int] {
 		e.tick()
 		for len(s.evals) <= i {
@@ -205,6 +239,11 @@ func multiOperand() func(x *mc.X) {
 			lens[i] = x.Choose(4, fmt.Sprintf("length of operand %d", i))
 			ops[i] = operandValues(lens[i])
 		}
+		flavour := 0
+		if unb >= 0 {
+			flavour = x.Choose(len(unboundedFlavours), "unbounded list operand built by")
+			x.Tag("multi-operand:unbounded operand " + unboundedFlavours[flavour])
+		}
 		x.Tag(op.name)
 		x.Tag(op.lname)
 		out := op.ref(ops)
@@ -225,46 +264,27 @@ func multiOperand() func(x *mc.X) {
 				x.Fail("seq/"+op.name+"/reference", "the package-seq counterpart gives %v, the harness reference %v (%s)", got, out, label(op.name))
 			}
 		}
-		if op.observe {
+		if op.observe && unb < 0 {
 			// iterator.Map2/Ap hand ONE second-operand iterator to every element of the first (single
-			// use): value agreement with seq is recorded as an observation, not demanded (C01's subject)
-			if unb < 0 {
-				e := &env{x: x, budget: 4000}
-				var got []int
-				srcs := make([]*opSrc, op.arity)
-				pv := mc.Catch(func() {
-					its := make([]fp.Iterator[int], op.arity)
-					for i := range its {
-						srcs[i] = &opSrc{}
-						its[i] = iterOperand(e, srcs[i], lens[i])
-					}
-					got = op.iter(e, its).ToSeq()
-				})
-				if pv != nil {
-					x.Fail(op.name+"/panic", "%s: %v", label(op.name), pv)
+			// use): value agreement with seq is recorded as an observation, not demanded (C01's
+			// subject). list.Map2/Ap are compared strictly below, like every other list function.
+			e := &env{x: x, budget: 4000}
+			var got []int
+			pv := mc.Catch(func() {
+				its := make([]fp.Iterator[int], op.arity)
+				for i := range its {
+					its[i] = iterOperand(e, &opSrc{}, lens[i])
 				}
-				if eqInts(got, out) {
-					x.Tag("observation:" + op.name + " agrees with seq")
-				} else {
-					x.Tag("observation:" + op.name + " differs from seq (second operand is consumed by the first element)")
-				}
-				var lgot []int
-				pv = mc.Catch(func() {
-					ls := make([]fp.List[int], op.arity)
-					for i := range ls {
-						ls[i] = listOperand(e, &opSrc{}, lens[i])
-					}
-					lgot = op.lst(e, ls).ToSeq()
-				})
-				if pv != nil {
-					x.Fail(op.lname+"/panic", "%s: %v", label(op.lname), pv)
-				}
-				if !eqInts(lgot, out) {
-					x.Fail(op.lname+"/value", "%s = %v, the eager seq computation gives %v", label(op.lname), lgot, out)
-				}
+				got = op.iter(e, its).ToSeq()
+			})
+			if pv != nil {
+				x.Fail(op.name+"/panic", "%s: %v", label(op.name), pv)
 			}
-			x.ObserveInt(len(out))
-			return
+			if eqInts(got, out) {
+				x.Tag("observation:" + op.name + " agrees with seq")
+			} else {
+				x.Tag("observation:" + op.name + " differs from seq (second operand is consumed by the first element)")
+			}
 		}
 		maxD := len(out) + 1
 		if maxD > 5 && unb >= 0 {
@@ -277,8 +297,23 @@ func multiOperand() func(x *mc.X) {
 				return op.ref(o2)
 			}
 		}
+		// With an unbounded operand the reference output is computed on a truncated operand; a demand
+		// that would see the END of that output is only run if the end is real: zips end with their
+		// shortest finite operand; the cross products (Map2/Ap) end iff their FIRST operand is finite
+		// (Ap(Nil, unbounded) is empty, Ap(unbounded, Nil) never answers); concatenations do not end.
+		endReal := unb < 0 || op.zipLike || (op.observe && unb != 0)
 		for d := 0; d <= maxD; d++ {
+			if d > len(out) && !endReal {
+				x.Tag("multi-operand:excluded(reference needs the whole unbounded operand)")
+				continue
+			}
 			for _, h := range []bool{false, true} {
+				if op.observe {
+					break // the iterator variants of Map2/Ap are observed above only
+				}
+				if h && d >= len(out) && !endReal {
+					continue
+				}
 				// ---- iterator ----
 				e := &env{x: x, budget: 4000}
 				srcs := make([]*opSrc, op.arity)
@@ -300,6 +335,9 @@ func multiOperand() func(x *mc.X) {
 							what = "unbounded"
 						}
 					}
+					if e.tripped {
+						pv = fmt.Sprintf("does not return within the budget (%d pulls of an unbounded operand / %d callbacks)", pullLimit, e.budget)
+					}
 					x.Fail(op.name+"/"+what, "%s; %s: %v (reference output %v)", label(op.name), dem, pv, short8(out))
 				}
 				if wrong != "" {
@@ -320,7 +358,7 @@ func multiOperand() func(x *mc.X) {
 				ls := make([]fp.List[int], op.arity)
 				for i := range ls {
 					lsrcs[i] = &opSrc{}
-					ls[i] = listOperand(e, lsrcs[i], lens[i])
+					ls[i] = listOperand(e, lsrcs[i], lens[i], flavour)
 				}
 				wrong = walk(op.lst(e, ls), out, d, patForward)
 			})
@@ -332,6 +370,9 @@ func multiOperand() func(x *mc.X) {
 					if unb >= 0 && lsrcs[unb] != nil && lsrcs[unb].c.limitHit {
 						what = "unbounded"
 					}
+				}
+				if e.tripped {
+					pv = fmt.Sprintf("does not return within the budget (%d cells of an unbounded operand / %d callbacks)", pullLimit, e.budget)
 				}
 				x.Fail(op.lname+"/"+what, "%s; %s: %v (reference output %v)", label(op.lname), dem, pv, short8(out))
 			}
@@ -347,6 +388,11 @@ func multiOperand() func(x *mc.X) {
 					if c > 1 {
 						x.Fail(op.lname+"/memo", "%s; %s: cell %d of operand %d evaluated %d times", label(op.lname), dem, j, i, c)
 					}
+				}
+				if op.observe && i == 0 && len(ops[1]) == 0 {
+					// every element of the first operand contributes the empty list: FlatMap has to walk
+					// all of them to find the end (it cannot know that Map over Nil is Nil)
+					continue
 				}
 				if n := lazyViolation(refOf(i), ops[i], len(lsrcs[i].evals), k, false, 0); n >= 0 {
 					x.Fail(op.lname+"/lazy", "%s; %s: evaluated %d cells of operand %d although its first %d determine the answers (bound need+2)", label(op.lname), dem, len(lsrcs[i].evals), i, n)
